@@ -344,9 +344,10 @@ template<class P> struct isa {
   static m128i castpd_si128(m128d a) { m128i r; std::memcpy((void*)&r, &a, sizeof(m128d) < sizeof(m128i) ? sizeof(m128d) : sizeof(m128i)); return r; }
 
   // ------------------------------------------------------------ __m128i
-  // a C++ int handed to an intrinsic becomes a literal lane -- unless the policy recognises it as something glm's
-  // generic code computed from lane handles (integer-typed traces; see policy_sym.hpp), which is poison
-  static W from_cxx_int(uint32_t b) { if (P::suspicious_int(b)) return poison("a C++ int computed from lane handles (generic per-component code on an aligned integer vector) was passed to an intrinsic"); return kbits(b); }
+  // a C++ int handed to an intrinsic becomes a literal lane -- unless the policy recognises it as a lane word that was
+  // moved unchanged (it stays that lane) or as something glm's generic code computed from lane handles (poison);
+  // both only in integer-typed traces, see policy_sym.hpp
+  static W from_cxx_int(uint32_t b) { W lane; if (P::int_is_lane(b, lane)) return lane; if (P::suspicious_int(b)) return poison("a C++ int computed from lane handles (generic per-component code on an aligned integer vector) was passed to an intrinsic"); return kbits(b); }
   static m128i set_epi32(int e3, int e2, int e1, int e0) { m128i r; r.f[0] = from_cxx_int((uint32_t)e0); r.f[1] = from_cxx_int((uint32_t)e1); r.f[2] = from_cxx_int((uint32_t)e2); r.f[3] = from_cxx_int((uint32_t)e3); return r; }
   static m128i setr_epi32(int e0, int e1, int e2, int e3) { return set_epi32(e3, e2, e1, e0); }
   static m128i set1_epi32(int a) { return set_epi32(a, a, a, a); }
